@@ -737,7 +737,8 @@ def contains(self, container, item):
     if isinstance(container, PDict):
         if container.symbolic:
             return self.wrap(z3.Select(container.dom, self.to_z3(item, container.kty)), "bool")
-        return self.contains(tuple(container.items.keys()), item)
+        from .prims_methods import _unhash
+        return self.contains(tuple(_unhash(k) for k in container.items.keys()), item)
     if isinstance(container, (bytes, str)) and is_concrete(item):
         try:
             return item in container
@@ -760,6 +761,8 @@ def contains(self, container, item):
 
 
 def len_of(self, v):
+    if type(v).__name__ == "AnyList":
+        return v.n
     if isinstance(v, PObj) and "__data__" in v.fields and not self.class_attr_raw(v.cls, "__len__")[0]:
         v = v.fields["__data__"]
     if isinstance(v, (bytes, str, tuple)):
@@ -822,6 +825,17 @@ def eval_slice_index(self, base, lo, hi, step):
 def get_item(self, base, idx):
     if isinstance(base, NT):
         base = base.items
+    if type(base).__name__ == "AnyList":
+        if self.type_of(idx) not in ("int", "bool"):
+            self.raise_exc("TypeError")
+        it = self.to_z3(idx, "int")
+        if self.path.branch(z3.Or(it < -base.n, it >= base.n)):
+            self.raise_exc("IndexError")
+        key = z3.simplify(z3.If(it < 0, it + base.n, it))
+        kid = key.get_id()
+        if kid not in base.cache:
+            base.cache[kid] = self.make_symbolic(base.decl, "elem")
+        return base.cache[kid]
     if isinstance(base, PObj) and "__data__" in base.fields and not self.class_attr_raw(base.cls, "__getitem__")[0]:
         base = base.fields["__data__"]
     if isinstance(base, PDict):
@@ -954,7 +968,8 @@ def iterate(self, v):
     if isinstance(v, PDict):
         if v.symbolic:
             raise Unsupported("iteration over symbolic dict")
-        return list(v.items.keys())
+        from .prims_methods import _unhash
+        return [_unhash(k) for k in v.items.keys()]
     if isinstance(v, PSet):
         if v.symbolic:
             raise Unsupported("iteration over symbolic set")
